@@ -28,6 +28,7 @@ package cose
 
 //@ func cose.Header.UnmarshalCBORStream
 //@   params hdr r o flattened
+//@   local err = call:cbor.Decoder.Decode#1 | call:cbor.Decoder.Decode#2 | call:cbor.Unmarshal#1 | call:cbor.Unmarshal#2
 //@   props C10(sweep)
 //@   sweep bounds,panic,make,nilmem,div
 
